@@ -85,6 +85,9 @@ type roundsPlan struct {
 	SlowHook bool `json:"slow_hook,omitempty"`
 	// ReadTimeout0: Info.PacketReadTimeout is 0 (legal: the timeout only matters for a connection that ended).
 	ReadTimeout0 bool `json:"read_timeout_0,omitempty"`
+	// NilHook: every hook is first registered in a call whose second function is nil - the call must fail and
+	// register nothing - and then on its own.
+	NilHook bool `json:"nil_hook,omitempty"`
 }
 
 func (it rItem) bytes() []byte {
@@ -266,7 +269,12 @@ func genRounds(r *Rand, nRounds int, eedPct, envPct int, hooks bool) []rRound {
 		// the end of the response
 		switch r.Intn(6) {
 		case 0, 1, 2:
-			items = append(items, rItem{K: "done", Status: 0})
+			if r.Pct(20) {
+				// the answer to a procedure call ends with TDS_DONEPROC: it is the final DONE of the response
+				items = append(items, rItem{K: "doneproc", Status: 0})
+			} else {
+				items = append(items, rItem{K: "done", Status: 0})
+			}
 		case 3:
 			items = append(items, rItem{K: "done", Status: Pick(r, []int{0x10, 0x08, 0x02, 0x04, 0x12}), N: next()})
 		case 4:
@@ -336,6 +344,7 @@ func genRoundsPlan(r *Rand, eedPct, envPct int, hooks bool) *roundsPlan {
 	}
 	if hooks {
 		p.SpreadHooks = r.Pct(30)
+		p.NilHook = !p.SpreadHooks && r.Pct(15)
 		p.SlowHook = r.Pct(12)
 		for _, rd := range p.Rounds {
 			// (rounds with their own timing - polls that spin, slow responses, pausing consumers - stay as they are)
@@ -575,6 +584,11 @@ func runRounds(p *roundsPlan, schedSeed uint64, replay []simrt.Choice, lenient, 
 					}
 				}
 			} else {
+				if p.NilHook {
+					if e := ch.RegisterEEDHooks(fn, nil); e == nil {
+						obs.setupErr = "RegisterEEDHooks accepted a nil function"
+					}
+				}
 				err = ch.RegisterEEDHooks(fn)
 			}
 			obs.eedHooks[id] = simrt.Record("eed-hook-registered", "", "", int64(id))
@@ -586,9 +600,15 @@ func runRounds(p *roundsPlan, schedSeed uint64, replay []simrt.Choice, lenient, 
 		addEnv := func() {
 			id := len(obs.envHooks)
 			obs.envHooks = append(obs.envHooks, -1) // the id is taken before the call: several tasks may register at once
-			err := ch.RegisterEnvChangeHooks(func(t tds.EnvChangeType, o, n string) {
+			envFn := func(t tds.EnvChangeType, o, n string) {
 				obs.envCalls = append(obs.envCalls, hookCall{id, simrt.Record("env-hook", "", "", int64(id)), fmt.Sprintf("%d:%s:%s", t, n, o)})
-			})
+			}
+			if p.NilHook {
+				if e := ch.RegisterEnvChangeHooks(envFn, nil); e == nil {
+					obs.setupErr = "RegisterEnvChangeHooks accepted a nil function"
+				}
+			}
+			err := ch.RegisterEnvChangeHooks(envFn)
 			obs.envHooks[id] = simrt.Record("env-hook-registered", "", "", int64(id))
 			if err != nil {
 				obs.setupErr = "RegisterEnvChangeHooks: " + err.Error()
